@@ -137,17 +137,36 @@ func (w *ICSWorld) erc20Of(denom string) (common.Address, bool) {
 	return p.GetERC20Contract(), true
 }
 
-func (w *ICSWorld) viewBal(contract, who common.Address) int64 {
+// icsUnit: one model unit of a transferred amount is 2^64+1 base units (amounts beyond every machine-integer bound)
+var icsUnit = new(big.Int).Add(new(big.Int).Lsh(big.NewInt(1), 64), big.NewInt(1))
+
+func icsAmount(n int64) *big.Int { return new(big.Int).Mul(big.NewInt(n), icsUnit) }
+
+// icsUnits: base units -> model units (-999: not a multiple)
+func icsUnits(x *big.Int) int64 {
+	q, r := new(big.Int).QuoRem(x, icsUnit, new(big.Int))
+	if r.Sign() != 0 || !q.IsInt64() {
+		return -999
+	}
+	return q.Int64()
+}
+
+func (w *ICSWorld) viewBalBig(contract, who common.Address) *big.Int {
 	ctx, _ := w.B.GetContext().CacheContext()
 	res, err := w.appB().AggregateKeeper.CallEVM(ctx, erc20ABI, aggtypes.ModuleAddress, contract, "balanceOf", who)
 	if err != nil {
-		return -1
+		return big.NewInt(-1)
 	}
 	out, err := erc20ABI.Unpack("balanceOf", res.Ret)
 	if err != nil || len(out) == 0 {
-		return -1
+		return big.NewInt(-1)
 	}
-	return out[0].(*big.Int).Int64()
+	return out[0].(*big.Int)
+}
+
+// viewBal: a token balance in model units
+func (w *ICSWorld) viewBal(contract, who common.Address) int64 {
+	return icsUnits(w.viewBalBig(contract, who))
 }
 
 func (w *ICSWorld) project(denoms map[string]string) M {
@@ -161,10 +180,15 @@ func (w *ICSWorld) project(denoms map[string]string) M {
 		xc = w.Y
 	}
 	st := M{"enabled": a.AggregateKeeper.GetParams(ctx).EnableAggregate, "xreg": a.AggregateKeeper.IsERC20Registered(ctx, w.X) || xbad, "xbad": xbad,
-		"mx": w.viewBal(xc, common.BytesToAddress(mod))}
+		"mx": func() int64 {
+			if xbad {
+				return w.viewBalBig(xc, common.BytesToAddress(mod)).Int64() // the misbehaving token's own small numbers (it halves what it is given)
+			}
+			return w.viewBal(xc, common.BytesToAddress(mod))
+		}()}
 	for abs, d := range denoms {
-		e := M{"vbal": a.BankKeeper.GetBalance(ctx, w.userB(), d).Amount.Int64(), "esc": a.BankKeeper.GetBalance(ctx, mod, d).Amount.Int64(),
-			"sup": a.BankKeeper.GetSupply(ctx, d).Amount.Int64(), "registered": false, "pairon": false, "tok": 0, "ext": false, "out": 0, "committed": false}
+		e := M{"vbal": icsUnits(a.BankKeeper.GetBalance(ctx, w.userB(), d).Amount.BigInt()), "esc": icsUnits(a.BankKeeper.GetBalance(ctx, mod, d).Amount.BigInt()),
+			"sup": icsUnits(a.BankKeeper.GetSupply(ctx, d).Amount.BigInt()), "registered": false, "pairon": false, "tok": 0, "ext": false, "out": 0, "committed": false}
 		if pd := w.Pend[abs]; pd != nil {
 			e["out"] = pd.amount
 			e["committed"] = len(a.IBCKeeper.ChannelKeeper.GetPacketCommitment(ctx, pd.packet.SourcePort, pd.packet.SourceChannel, pd.packet.Sequence)) > 0
@@ -205,7 +229,7 @@ func driveICS20(t *testing.T, in, out string, seed int64) {
 				if str(st["denom"]) == "vc" {
 					path, sender, seqp = w.PathC, w.C, &w.seqC
 				}
-				amount := map[string]string{"1": "1", "2": "2", "zero": "0", "garbage": "1x", "neg": "-3"}[str(st["amt"])]
+				amount := map[string]string{"1": icsAmount(1).String(), "2": icsAmount(2).String(), "zero": "0", "garbage": "1x", "neg": "-3"}[str(st["amt"])]
 				recv := w.userB().String()
 				switch str(st["recv"]) {
 				case "invalid":
@@ -236,7 +260,10 @@ func driveICS20(t *testing.T, in, out string, seed int64) {
 					}
 				}()
 				w.fixHeaders()
-				err := path.EndpointB.RecvPacket(packet)
+				// MsgRecvPacket with the real proof, delivered through the application (a failing or panicking delivery is
+				// reported, not fatal)
+				proof, proofHeight := path.EndpointA.QueryProof(host.PacketCommitmentKey(packet.GetSourcePort(), packet.GetSourceChannel(), packet.GetSequence()))
+				_, err := w.deliverB(channeltypes.NewMsgRecvPacket(packet, proof, proofHeight, w.userB().String()))
 				line["res"] = "ok"
 				if err != nil {
 					line["res"], line["msg"] = "err", clip(err.Error())
@@ -289,7 +316,7 @@ func driveICS20(t *testing.T, in, out string, seed int64) {
 					// contract's own rule; the balance the module ends up with is what the model reads back)
 					res, err = a.AggregateKeeper.CallEVMWithData(w.B.GetContext(), w.xOwner(), &w.Y, mustPack(erc20ABI, "transfer", mod, big.NewInt(num(st["n"]))))
 				} else {
-					res, err = a.AggregateKeeper.CallEVMWithData(w.B.GetContext(), w.xOwner(), &w.X, mustPack(erc20ABI, "mint", mod, big.NewInt(num(st["n"]))))
+					res, err = a.AggregateKeeper.CallEVMWithData(w.B.GetContext(), w.xOwner(), &w.X, mustPack(erc20ABI, "mint", mod, icsAmount(num(st["n"]))))
 				}
 				line["res"] = "ok"
 				if err != nil || res.Failed() {
@@ -358,9 +385,9 @@ func (w *ICSWorld) sendBack(line, st M, denoms map[string]string) {
 	coin := sdk.Coin{Denom: denoms[abs], Amount: sdk.NewInt(0)}
 	switch str(st["amt"]) {
 	case "1":
-		coin.Amount = sdk.NewInt(1)
+		coin.Amount = sdk.NewIntFromBigInt(icsAmount(1))
 	case "2":
-		coin.Amount = sdk.NewInt(2)
+		coin.Amount = sdk.NewIntFromBigInt(icsAmount(2))
 	case "neg":
 		coin.Amount = sdk.NewInt(-3)
 	case "garbage":
@@ -381,7 +408,7 @@ func (w *ICSWorld) sendBack(line, st M, denoms map[string]string) {
 		return
 	}
 	line["res"] = "ok"
-	w.Pend[abs] = &icsPending{packet: packet, amount: coin.Amount.Int64()}
+	w.Pend[abs] = &icsPending{packet: packet, amount: icsUnits(coin.Amount.BigInt())}
 }
 
 // settle: the outstanding packet of a voucher is settled by an acknowledgement the counterparty wrote (success or
